@@ -78,7 +78,7 @@ func (v *VUrl) validate(value string) *VUrl {
 	for _, query := range strings.Split(urlQuery, "&") {
 		key = ""
 		val = ""
-		key2val := strings.Split(query, "=")
+		key2val := strings.SplitN(query, "=", 2) // 值里可能包含 "="
 		l := len(key2val)
 		if l > 0 {
 			key = key2val[0]
